@@ -3,7 +3,7 @@
 // (poolmax / poolcap / poolmin parameters), every atomic access, plain protocol read and pthread call is a
 // scheduling point.  Futures live on the heap and are deleted right after the join / result conversion (the
 // documented usage): the shim reports any pthread call on a destroyed mutex / condition variable.
-//   clients=<n> futs=<futures per client> mode=<0 join then read result | 1 result conversion | 2 restart same future | 3 sequential calls after an idle period | 4 restart same future, then result conversion without join | 5 every start() overload once (22 overloads), client 1 only>
+//   clients=<n> futs=<futures per client> mode=<0 join then read result | 1 result conversion | 2 restart same future | 3 sequential calls after an idle period | 4 restart same future, then result conversion without join | 5 every start() overload once (22 overloads), client 1 only | 6 Future<Res> (heap-owning result), every second future destroyed without join>
 //   abort=<0|1> sleep=<ms virtual sleep of client 1 between start and join: lets the pool's idle clock advance>
 #include "../sched/sched.h"
 #include <stdio.h>
@@ -27,6 +27,59 @@ static int work(int id)
 
 // ---- mode 5: every start() overload once (Future<void> / Future<int>, plain function / member function, 0..5
 // arguments).  Call f = 40 + overload number; argument i of call f must arrive as f * 100 + i; the function reports
+// ---- mode 6: Future<Res> with a result type that owns heap memory; every second future is destroyed WITHOUT join while its
+// call may still be running: the destructor has to wait for the call, and the result object has to outlive it
+static int g_resOwner = -1;            // id of the call whose Future<Res> is being constructed (its embedded result picks it up)
+struct Res
+{
+  int* p; int owner; bool alive;
+  Res() : p(new int(0)), owner(g_resOwner), alive(true) { g_resOwner = -1; }
+  Res(int v) : p(new int(v)), owner(-1), alive(true) {}
+  Res(const Res& o) : p(new int(*o.p)), owner(-1), alive(true) {}
+  Res& operator=(const Res& o)
+  {
+    if(!alive) sched_fail("the result object of call %d is assigned after its destruction", owner);
+    int* n = new int(*o.p); delete p; p = n; return *this;
+  }
+  ~Res() { if(owner >= 0) sched_event("\"op\":\"resdead\",\"f\":%d", owner); alive = false; delete p; p = 0; }
+};
+static Res workres(int id)
+{
+  ++execCount[id];
+  sched_event("\"op\":\"exec\",\"f\":%d", id);
+  if(workYield) sched_point("work");
+  sched_event("\"op\":\"done\",\"f\":%d", id);
+  return Res(id * 10 + 1);
+}
+static void client_res(int c)
+{
+  Future<Res>* fut[MAXF];
+  for(int i = 0; i < nfuts; ++i)
+  {
+    int id = c * 8 + i;
+    g_resOwner = id;
+    fut[i] = new Future<Res>;
+    sched_event("\"op\":\"start\",\"f\":%d,\"c\":%d", id, c);
+    fut[i]->start(&workres, id);
+    sched_event("\"op\":\"started\",\"f\":%d,\"c\":%d", id, c);
+    if(doAbort == 1 && (id & 1)) { sched_event("\"op\":\"abort\",\"f\":%d", id); fut[i]->abort(); }
+  }
+  for(int i = 0; i < nfuts; ++i)
+  {
+    int id = c * 8 + i;
+    if((i + c) % 2 == 0)
+    {
+      sched_event("\"op\":\"join\",\"f\":%d", id);
+      Res r = *fut[i];
+      sched_event("\"op\":\"joinret\",\"f\":%d,\"r\":%d,\"fin\":%s,\"ab\":%s,\"execs\":%d", id, *r.p,
+                  fut[i]->isFinished() ? "true" : "false", fut[i]->isAborted() ? "true" : "false", (int)execCount[id]);
+    }
+    sched_event("\"op\":\"dtor\",\"f\":%d", id);
+    delete fut[i];                      // without join for every second future
+    sched_event("\"op\":\"deleted\",\"f\":%d", id);
+  }
+}
+
 // f * 10 + 1 only if all of them did (FutureAbs demands that value), through the result or - for Future<void> - a slot.
 static volatile int voidResult[64];
 static int ovl_body(int f, int n, int a1 = 0, int a2 = 0, int a3 = 0, int a4 = 0, int a5 = 0)
@@ -112,6 +165,7 @@ static void client(void* arg)
 {
   int c = (int)(long)arg;
   if(mode == 5) { if(c == 1) overload_sweep(); return; }
+  if(mode == 6) { client_res(c); return; }
   Future<int>* fut[MAXF];
   for(int i = 0; i < nfuts; ++i)
   {
